@@ -1,12 +1,12 @@
 package tla
 
 import (
-	"strconv"
 	"bufio"
 	"fmt"
 	"os"
 	"path/filepath"
 	"sort"
+	"strconv"
 	"strings"
 )
 
